@@ -198,6 +198,7 @@ type ordNet struct {
 	lag        int
 	timed      bool
 	feedhub    bool // the replicas run the node's real feed hub between order layer and executor
+	unordered  bool // ... and the stand-in executor announces executed blocks from one goroutine each
 	propLoss   bool // half of the forwarded proposals (raft MsgProp) are lost
 	hookSeed   int64
 	slowProp   bool // a cut batch waits (hook raft.before_propose) before it is proposed: leadership may change in between
@@ -324,6 +325,9 @@ func (nw *ordNet) spawn(id uint64, extraEnv []string, extraArgs ...string) error
 	}
 	if nw.feedhub {
 		args = append(args, "-feedhub")
+		if nw.unordered {
+			args = append(args, "-announce-unordered")
+		}
 	}
 	args = append(args, extraArgs...)
 	cmd := exec.Command(nw.self, args...)
@@ -473,6 +477,12 @@ func ordScenario(w *vlog.W, a *wargs, id int, rng *rand.Rand, viol func(sig, det
 	nw.feedhub = id%3 != 0
 	if nw.feedhub {
 		w.Count("scenario:through-real-feed-hub", 1)
+		// the real executor announces each executed block from a goroutine of its own: in every second of these
+		// scenarios so does the stand-in, and reports of execution reach the order layer out of order
+		nw.unordered = id%2 == 0
+		if nw.unordered {
+			w.Count("scenario:execution-reports-overtake-each-other", 1)
+		}
 	}
 	nw.propLoss = typ == "raft" && rng.Intn(3) == 0
 	if nw.propLoss {
